@@ -1,4 +1,5 @@
 import WfProofs.ValidateSpec
+import WfProofs.ValidateExt
 /-!
 # C23 — workflow validation accepts exactly the well-formed graphs
 
@@ -272,3 +273,158 @@ theorem C23_subclass_is_closure (H : Hier) (hwf : H.wf = true) (c d : Cls) :
   isSub_iff_subClass hwf c d
 
 example : exH.wf = true ∧ IsA exH 10 0 ∧ ¬IsA exH 10 1 ∧ IsA exH 11 1 := by decide
+
+/-! ## Extension: offender sets, the reach of `skip_graph_checks`, the terminal-event check -/
+
+/-- The names a graph error carries are exactly the offenders, member by member (not only "the list is empty iff
+the clause holds"): the unreachable steps are the steps, not exempted for the workflow or by their own
+`skip_graph_checks`, that no entry point reaches; the dangling events are the event types of the graph that no step
+consumes and that are neither StopEvent nor InputRequiredEvent types; the dead ends are the steps returning some
+event, not exempted, from which no output event can be reached. -/
+theorem C23_graph_offenders_exact (H : Hier) (W : List Step) (skip : List Nat) (hnd : (names W).Nodup) (g : GraphErrs)
+    (h : validateWorkflow H W skip = .error (.graph g)) :
+    (∀ n, n ∈ g.unreach ↔ ckReach ∉ skip ∧ ∃ s ∈ W, s.name = n ∧ ckReach ∉ s.skip ∧
+        ¬∃ seed, InputSeed H W seed ∧ Reach (Edge W) seed (.step n)) ∧
+    (∀ c, c ∈ g.dangling ↔ ckTerminal ∉ skip ∧ EventType W c ∧ ¬Consumed W c ∧ ¬IsA H c cStop ∧ ¬IsA H c cInputRequired) ∧
+    (∀ n, n ∈ g.deadEnd ↔ ckDeadEnd ∉ skip ∧ ∃ s ∈ W, s.name = n ∧ (∃ c ∈ s.returns, c ≠ cNone) ∧ ckDeadEnd ∉ s.skip ∧
+        ¬∃ o, Output H W o ∧ Reach (Edge W) (.step n) (.ev o)) := by
+  rw [validateWorkflow_split] at h
+  cases hp : preGraph H W with
+  | error e =>
+    rw [hp] at h; simp only at h
+    injection h with h; subst h
+    exact absurd hp preGraph_not_graph
+  | ok start =>
+    have hs := preGraph_start hp
+    rw [hp] at h
+    simp only at h
+    have hg : g = validateGraph H W start skip := by
+      by_cases hn : (validateGraph H W start skip).none = true
+      · simp [hn] at h
+      · simp only [hn, Bool.false_eq_true, if_false] at h
+        injection h with h; injection h with h; exact h.symm
+    subst hg
+    refine ⟨fun n => ?_, fun c => ?_, fun n => ?_⟩
+    · simp only [validateGraph, mem_skip_ite, mem_unreachable hnd, C23_forward_reachable H W start hs]
+    · simp only [validateGraph, mem_skip_ite, mem_dangling, ← eventType_iff, not_or]
+      rfl
+    · simp only [validateGraph, mem_skip_ite, mem_deadEnds hnd, C23_reverse_reachable H W]
+
+/-- non-vacuity: `exBad` is rejected with exactly step 5 unreachable and a dead end, nothing dangling -/
+example : ∃ g, validateWorkflow exH exBad [] = .error (.graph g) ∧ 5 ∈ g.unreach ∧ 1 ∉ g.unreach ∧ 5 ∈ g.deadEnd :=
+  ⟨{ unreach := [5], dangling := [], deadEnd := [5] }, by decide, by decide, by decide, by decide⟩
+
+/-- Only the graph checks read `skip_graph_checks`: every error other than a graph error is reported for one skip set
+iff it is reported for any other, and whenever two skip sets both accept, the flag is the same. -/
+theorem C23_skip_only_affects_graph_checks (H : Hier) (W : List Step) (skip skip' : List Nat) :
+    (∀ e, (∀ g, e ≠ .graph g) → (validateWorkflow H W skip = .error e ↔ validateWorkflow H W skip' = .error e)) ∧
+    (∀ b b', validateWorkflow H W skip = .ok b → validateWorkflow H W skip' = .ok b' → b = b') := by
+  have key : ∀ (k k' : List Nat) (e : Err), (∀ g, e ≠ .graph g) → validateWorkflow H W k = .error e →
+      validateWorkflow H W k' = .error e := by
+    intro k k' e hne h
+    rw [validateWorkflow_split] at h ⊢
+    cases hp : preGraph H W with
+    | error e' => rw [hp] at h; exact h
+    | ok start =>
+      rw [hp] at h
+      simp only at h
+      by_cases hn : (validateGraph H W start k).none = true
+      · simp [hn] at h
+      · simp only [hn, Bool.false_eq_true, if_false] at h
+        injection h with h
+        exact absurd h.symm (hne _)
+  refine ⟨fun e hne => ⟨key skip skip' e hne, key skip' skip e hne⟩, ?_⟩
+  intro b b' h h'
+  rw [validateWorkflow_split] at h h'
+  cases hp : preGraph H W with
+  | error e => rw [hp] at h; cases h
+  | ok start =>
+    rw [hp] at h h'
+    simp only at h h'
+    by_cases hn : (validateGraph H W start skip).none = true
+    · by_cases hn' : (validateGraph H W start skip').none = true
+      · simp only [hn, hn', if_true] at h h'
+        injection h with h; injection h' with h'
+        rw [← h, ← h']
+      · simp [hn'] at h'
+    · simp [hn] at h
+
+example : validateWorkflow exH exBad [] ≠ validateWorkflow exH exBad [ckReach, ckDeadEnd] ∧
+    validateWorkflow exH ({ name := 9, accepted := [11, 2], returns := [] } :: exBad) [ckReach, ckDeadEnd] = .error .multiStart := by
+  decide
+
+/-- Skipping more never rejects: a step set accepted under a skip set is accepted, with the same flag, under every
+larger one. -/
+theorem C23_skip_monotone (H : Hier) (W : List Step) (skip skip' : List Nat) (hsub : ∀ c ∈ skip, c ∈ skip') (b : Bool)
+    (h : validateWorkflow H W skip = .ok b) : validateWorkflow H W skip' = .ok b := by
+  rw [validateWorkflow_split] at h ⊢
+  cases hp : preGraph H W with
+  | error e => rw [hp] at h; cases h
+  | ok start =>
+    rw [hp] at h
+    simp only at h ⊢
+    by_cases hn : (validateGraph H W start skip).none = true
+    · rw [validateGraph_none_mono hsub hn]
+      simpa [hn] using h
+    · simp [hn] at h
+
+example : validateWorkflow exH exBad [ckReach, ckDeadEnd] = .ok false ∧
+    validateWorkflow exH exBad [ckDeadEnd, ckTerminal, ckReach] = .ok false := by decide
+
+/-- With all three checks skipped for the workflow, validation accepts iff the clauses that cannot be skipped hold:
+a non-empty step set with one start and one stop type, no StopEvent consumer, event connectivity both ways and a
+consistent handler table. -/
+theorem C23_all_skipped (H : Hier) (W : List Step) (skip : List Nat) (hnd : (names W).Nodup)
+    (h0 : ckReach ∈ skip) (h1 : ckTerminal ∈ skip) (h2 : ckDeadEnd ∈ skip) :
+    (∃ b, validateWorkflow H W skip = .ok b) ↔ Pre5 H W ∧ HandlersOK W := by
+  rw [C23_accepts_iff_wellformed H W skip hnd]
+  constructor
+  · intro wf
+    exact ⟨⟨⟨wf.nonempty, wf.start, wf.stop⟩, wf.noStopConsumer, wf.consumedProduced, wf.producedConsumed⟩, wf.handlers⟩
+  · rintro ⟨⟨⟨a, b, c⟩, d, e, f⟩, g⟩
+    exact ⟨a, b, c, d, e, f, g, Or.inl h0, Or.inl h1, Or.inl h2⟩
+
+example : Pre5 exH exBad ∧ HandlersOK exBad :=
+  (C23_all_skipped exH exBad [0, 1, 2] (by decide) (by decide) (by decide) (by decide)).mp ⟨false, by decide⟩
+
+/-- What is left for the terminal-event check.  Event connectivity is checked first and already demands that every
+produced type be consumed unless it is an InputRequiredEvent, HumanResponseEvent or StopEvent type; so whenever a graph
+error is reported, every event it lists as dangling is a HumanResponseEvent type that some step returns and no step
+consumes. -/
+theorem C23_dangling_only_human_response (H : Hier) (W : List Step) (skip : List Nat) (hnd : (names W).Nodup)
+    (g : GraphErrs) (h : validateWorkflow H W skip = .error (.graph g)) :
+    ∀ c ∈ g.dangling, IsA H c cHumanResponse ∧ (Returned W c ∧ c ≠ cNone) ∧ ¬Consumed W c := by
+  intro c hc
+  obtain ⟨⟨_, _, _, hpc⟩, _⟩ := C23_error_is_first_failure H W skip hnd _ h
+  obtain ⟨_, het, hnc, hns, hni⟩ := ((C23_graph_offenders_exact H W skip hnd g h).2.1 c).mp hc
+  have hret : Returned W c ∧ c ≠ cNone := by
+    rcases het with h | h
+    · exact absurd h hnc
+    · exact h
+  refine ⟨?_, hret, hnc⟩
+  rcases hpc c (Or.inl hret) with h | h | h | h
+  · exact absurd h hnc
+  · exact absurd h hni
+  · exact h
+  · exact absurd h hns
+
+/-- ... and such a type is always found: a step set in which some step returns an event type that no step consumes and
+that is neither a StopEvent nor an InputRequiredEvent type is rejected unless the terminal-event check is skipped. -/
+theorem C23_unconsumed_return_rejected (H : Hier) (W : List Step) (skip : List Nat) (hnd : (names W).Nodup) (c : Cls)
+    (hr : Returned W c) (hn : c ≠ cNone) (hc : ¬Consumed W c) (hs : ¬IsA H c cStop) (hi : ¬IsA H c cInputRequired)
+    (hk : ckTerminal ∉ skip) : ∀ b, validateWorkflow H W skip ≠ .ok b := by
+  intro b hb
+  have wf := (C23_accepts_iff_wellformed H W skip hnd).mp ⟨b, hb⟩
+  rcases wf.terminal with h | h
+  · exact hk h
+  · rcases h c (Or.inr ⟨hr, hn⟩) with h | h | h
+    · exact hc h
+    · exact hs h
+    · exact hi h
+
+/-- non-vacuity: a returned and unconsumed HumanResponseEvent subclass (`8`) passes event connectivity and is what the
+terminal-event check reports -/
+example :
+    let W : List Step := [{ name := 1, accepted := [1], returns := [2, 8] }]
+    validateWorkflow exH W [] = .error (.graph { unreach := [], dangling := [8], deadEnd := [] }) ∧
+    validateWorkflow exH W [ckTerminal] = .ok false := by decide
